@@ -617,3 +617,126 @@ type Field struct {
 	Width int    `json:"w"`
 	Kind  string `json:"kind"`
 }
+
+// InDomain reports whether the message lies in the "encodable domain" the properties quantify over (the structural
+// conditions of the C01/C03/C05 quantifier; sizes are not checked here).
+func (m Message) InDomain() bool {
+	if m.Header.Major > 15 || m.Header.Minor > 15 {
+		return false
+	}
+	for _, p := range m.Payloads {
+		switch {
+		case p.Raw != nil:
+			return false
+		case p.SA != nil:
+			for _, pr := range p.SA.Proposals {
+				if len(pr.Transforms) < 1 || len(pr.Transforms) > 255 || len(pr.SPI) > 255 {
+					return false
+				}
+				for _, tr := range pr.Transforms {
+					if tr.Type < 1 || tr.Type > 5 {
+						return false
+					}
+					if a := tr.Attr; a != nil && (a.Type >= 0x8000 || (!a.TV && len(a.Var) == 0)) {
+						return false
+					}
+				}
+			}
+		case p.KE != nil:
+			if len(p.KE.Data) == 0 {
+				return false
+			}
+		case p.ID != nil:
+			if len(p.ID.Data) == 0 {
+				return false
+			}
+		case p.Cert != nil:
+			if len(p.Cert.Data) == 0 {
+				return false
+			}
+		case p.Auth != nil:
+			if len(p.Auth.Data) == 0 {
+				return false
+			}
+		case p.Notify != nil:
+			if len(p.Notify.SPI) > 255 {
+				return false
+			}
+		case p.Delete != nil:
+			d := p.Delete
+			if !(d.SPISize == 0 && len(d.SPIs) == 0 && d.Count == 0) && !(d.SPISize == 4 && int(d.Count) == len(d.SPIs)) {
+				return false
+			}
+		case p.TS != nil:
+			if len(p.TS.Selectors) < 1 || len(p.TS.Selectors) > 255 {
+				return false
+			}
+			for _, s := range p.TS.Selectors {
+				if !(s.Type == 7 && len(s.StartAddr) == 4 && len(s.EndAddr) == 4) && !(s.Type == 8 && len(s.StartAddr) == 16 && len(s.EndAddr) == 16) {
+					return false
+				}
+			}
+		case p.CP != nil:
+			if len(p.CP.Attrs) < 1 {
+				return false
+			}
+			for _, a := range p.CP.Attrs {
+				if a.Type >= 0x8000 {
+					return false
+				}
+			}
+		case p.EAP != nil:
+			if !p.EAP.InDomain() {
+				return false
+			}
+		}
+	}
+	return true
+}
+
+// InDomain: Success/Failure without data, Request/Response with a method of the model and legal AKA' value sizes.
+func (e EAP) InDomain() bool {
+	switch e.Kind {
+	case ENone:
+		return e.Code == 3 || e.Code == 4
+	case EIdentity, ENotification, ENak:
+		return (e.Code == 1 || e.Code == 2) && len(e.Data) >= 1
+	case EExpanded:
+		return (e.Code == 1 || e.Code == 2) && e.VendorID < 1<<24
+	case EAka:
+		if e.Code != 1 && e.Code != 2 {
+			return false
+		}
+		seen := map[uint8]bool{}
+		for _, a := range e.Attrs {
+			if seen[a.Type] {
+				return false
+			}
+			seen[a.Type] = true
+			n := len(a.Value)
+			switch a.Type {
+			case AT_RAND, AT_AUTN, AT_MAC:
+				if n != 16 {
+					return false
+				}
+			case AT_KDF:
+				if n != 2 {
+					return false
+				}
+			case AT_RES:
+				if n < 4 || n > 16 {
+					return false
+				}
+			case AT_KDF_INPUT:
+			case AT_CHECKCODE:
+				if n != 0 && n != 20 && n != 32 {
+					return false
+				}
+			default:
+				return false
+			}
+		}
+		return true
+	}
+	return false
+}
